@@ -44,6 +44,10 @@ def bases(ctx, tier):
     # ... the same with the folder hashed in a format that the file which took its name is only sealed in later
     B["retyped-paths-other-format"] = (ops.build(ctx, t7, [c("", ["xxh64"]), ["rm", "was-dir"], ["write", "was-dir", b"now a file"],
                                                             c("", ["md5"])], expect=[0, None]), [])
+    # hidden entries next to twins without the dot (a path must not lose or gain a leading dot on its way through the tool)
+    t10 = {".meta": DIR, ".meta/clip.txt": b"hidden folder", "meta": DIR, "meta/clip.txt": b"visible twin", ".notes": b"hidden file",
+           "notes": b"visible twin of the hidden file", "..data": DIR, "..data/x.bin": b"two dots"}
+    B["hidden-twins"] = (ops.build(ctx, t10, [c("", ["md5"])], expect=[0]), [])
     B["failed-generation"] = (ops.build(ctx, T, [c("", ["md5"]), ["write", "a.txt", FAILED_CONTENT], c("", ["md5"]),
                                                  ["write", "a.txt", T["a.txt"]]], expect=[0, 11]), [])
     B["empty-folder"] = (ops.build(ctx, {}, [c("", ["xxh64"])], expect=[0]), [])
@@ -153,7 +157,8 @@ def judge_res(ctx, case, t, mt, res=None):
     altered, removed, new = classify(base, t, pats)
     present = {"altered": altered, "removed": removed, "new": new}
     op = {"verify": ["verify", {"root": ""}], "diff": ["diff", {"root": ""}],
-          "create": ops.create("", case.get("fmts") or ["xxh64"])}[cmd]
+          "create": ops.create("", case.get("fmts") or ["xxh64"]),
+          "verify-sf": ["verify", {"root": "", "sf": case.get("sf"), "sf_raw": case.get("sf_form") == "relative"}]}[cmd]
     if case.get("spell") or case.get("v"):   # the root folder as a user may spell it / verbose output
         op = [op[0], dict(op[1], spell=case.get("spell"), v=bool(case.get("v")))]
     if res is None:
@@ -167,6 +172,24 @@ def judge_res(ctx, case, t, mt, res=None):
     def V(kind, detail, **extra):
         v.append(Viol(PROP, kind, dict(sig, **extra), detail, case))
 
+    if cmd == "verify-sf":
+        # one recorded file that is still there: 11 if its content was altered; otherwise 0 (an entry that is missing elsewhere
+        # may still be reported: 10) - whatever else was altered or added
+        v2 = []
+        f = case["sf"]
+        want1 = 11 if f in altered else 0
+        if not want1 and removed and res.exit == 10 and res.exc is None:
+            return v2
+        desc1 = f"{case['name']} + {[m[0] for m in muts]} -> verify -sf {f} ({case.get('sf_form')} path)"
+        s2 = {"cmd": "verify-sf", "base": case["name"], "classes": "altered" if want1 else "none", "exit": res.exit, "form": case.get("sf_form")}
+        if res.exc is not None:
+            v2.append(Viol(PROP, "abort", dict(s2, exc=res.exc.split(":")[0]), f"{desc1}: exit {res.exit} {res.exc} {res.tb}", case))
+        elif res.exit != want1:
+            v2.append(Viol(PROP, "wrong-exit" if want1 else "false-alarm", dict(s2, want=[want1]),
+                           f"{desc1}: exit {res.exit}, expected {want1}\n{res.err[-300:]}", case))
+        elif want1 and f not in (res.out + res.err) and f.split("/")[-1] not in (res.out + res.err):
+            v2.append(Viol(PROP, "path-not-named", dict(s2, cls="altered"), f"{desc1}: the altered file is not named\n{res.err[-300:]}", case))
+        return v2
     want = {CODES[cmd][k] for k in present if present[k] and k in CODES[cmd]}
     if present["altered"] and cmd in ("verify", "create"):
         want = {11}   # "if a recorded file's content was altered, verify and create exit with 11" - whatever else changed
@@ -231,8 +254,13 @@ def main(tier, seed):
                 if name.startswith("only-nested") and cmd != "create":
                     continue
                 cases.append({"name": name, "base": tree, "pats": pats, "muts": ms, "cmd": cmd})
-                if len(ms) <= 1 and name in ("flat1", "nested1", "ignore-negated-anchored"):
-                    for sp in ("slash", "slashdot", "dot", "rel"):
+                if cmd == "verify" and len(ms) <= 1 and name in ("flat1", "nested1", "nested2", "odd-names", "hidden-twins"):
+                    medt = ref.media(t)
+                    for f in [p for p, cc in sorted(ref.media(tree).items()) if cc is not DIR and medt.get(p, DIR) is not DIR][:8]:
+                        for form in ("absolute", "relative"):
+                            cases.append({"name": name, "base": tree, "pats": pats, "muts": ms, "cmd": "verify-sf", "sf": f, "sf_form": form})
+                if len(ms) <= 1 and name in ("flat1", "nested1", "ignore-negated-anchored", "hidden-twins"):
+                    for sp in ("slash", "slashdot", "dot", "rel", "symlink"):
                         cases.append({"name": name, "base": tree, "pats": pats, "muts": ms, "cmd": cmd, "spell": sp})
                     cases.append({"name": name, "base": tree, "pats": pats, "muts": ms, "cmd": cmd, "v": True})
     res = eng.pmap(work, cases)
@@ -248,7 +276,8 @@ def main(tier, seed):
                    "delete of every file, rmdir of every empty directory, add a file in every directory, touch of every entry, "
                    "create/modify/delete of ignored files) and every pair (quick: on three bases; thorough: everywhere, "
                    "triples on flat1) x {verify, diff, create}; single mutations on three bases also with the root spelled 'dir/', 'dir/.', '.', "
-                   "'./dir' and with -v; expected exit-code class and named paths derived from the "
+                   "'./dir', through a symbolic link and with -v; verify -sf of every recorded file (absolute and root-relative path) after every "
+                   "single mutation on five bases; expected exit-code class and named paths derived from the "
                    "tree difference"}
     eng.assumptions.append("combined failures: any code of a failure class that is present for that command is accepted (the statement ranks none)")
     return eng.finish(cov, eval_case)
